@@ -189,6 +189,46 @@ def r3b_reset_ownership(ctx):
     rep.floor('C07.R3', 'resets of the nesting field', n_resets, 1)
 
 
+def _deep_parts(ctx, f, rd, node, expr, depth=2, _seen=None):
+    """sub-expressions that take part in deciding `expr` at `node`: the expression itself, the defining expressions of the local names it reads
+    (single plain definition) and the bodies of the repository predicates it calls (inlining bound 1).  Used by presence rules that ask
+    which constants / operator classes a decision depends on, so that a condition that was given a name or moved into a helper is still seen."""
+    _seen = _seen if _seen is not None else set()
+    out = [expr]
+    if depth <= 0:
+        return out
+    for x in ast.walk(expr):
+        if isinstance(x, ast.Name) and isinstance(x.ctx, ast.Load) and rd is not None:
+            ds = rd.at(node, x.id)
+            if len(ds) == 1 and ds[0].kind == 'assign' and isinstance(ds[0].value, ast.AST) and id(ds[0]) not in _seen:
+                _seen.add(id(ds[0]))
+                out += _deep_parts(ctx, f, rd, ds[0].node, ds[0].value, depth - 1, _seen)
+        if isinstance(x, ast.Call):
+            r = ctx.res.resolve_call(f, x)
+            cal = r[1] if r[0] == 'repo' else (r[2] if r[0] == 'method' else [])
+            if len(cal) == 1 and id(cal[0]) not in _seen and cal[0].module is f.module:
+                _seen.add(id(cal[0]))
+                for st in cal[0].node.body:
+                    if isinstance(st, ast.Expr) and isinstance(st.value, ast.Constant):
+                        continue        # docstring
+                    out.append(st)
+    return out
+
+
+def _str_consts_compared(parts):
+    """string constants that occur as operands of == / in comparisons inside the given expressions / statements"""
+    out = set()
+    for p_ in parts:
+        for e in ast.walk(p_):
+            if isinstance(e, ast.Compare) and len(e.ops) == 1 and isinstance(e.ops[0], (ast.Eq, ast.In)):
+                for side in (e.left, e.comparators[0]):
+                    if isinstance(side, ast.Constant) and isinstance(side.value, str):
+                        out.add(side.value)
+                    if isinstance(side, (ast.Tuple, ast.List, ast.Set)):
+                        out |= {x.value for x in side.elts if isinstance(x, ast.Constant) and isinstance(x.value, str)}
+    return out
+
+
 def r4_property_accessors(ctx):
     rep = ctx.rep
     recording = [f for f in _handler_funcs(ctx) if _record_stores(ctx, f)[1]]
@@ -202,12 +242,13 @@ def r4_property_accessors(ctx):
                 # an early exit: the record store is not reachable before it, i.e. it is not dominated by a store
                 if any(dom.dominates(s, n) for s in stores):
                     continue
+                rd_ = ctx.rd(f)
                 for fa in graph.guard_facts(dom, n):
-                    e = fa.expr
-                    if isinstance(e, ast.Compare) and len(e.ops) == 1 and isinstance(e.ops[0], ast.Eq) and fa.polarity is True:
-                        for side in (e.left, e.comparators[0]):
-                            if isinstance(side, ast.Constant) and isinstance(side.value, str):
-                                consts_guarding_exit.setdefault(side.value, n)
+                    if fa.polarity is not True or not isinstance(fa.expr, ast.AST) or fa.origin is None or fa.origin.kind != 'branch':
+                        continue
+                    tn = fa.origin.attrs['test']
+                    for cst in _str_consts_compared(_deep_parts(ctx, f, rd_, tn, fa.expr)):
+                        consts_guarding_exit.setdefault(cst, n)
         for req in ('setter', 'deleter'):
             ok = req in consts_guarding_exit
             rep.ob('C07.R4', ctx.loc(f, consts_guarding_exit[req].ast if ok else f.node), 'exit for @<prop>.%s' % req, ok,
@@ -267,10 +308,15 @@ def r5_main_guard(ctx):
     g, calls = _visit_calls(ctx, f)
     descents = [n for (n, c) in calls if c.func.attr == 'generic_visit']
 
+    rd_if = ctx.rd(f)
+
+    def deep(n):
+        return _deep_parts(ctx, f, rd_if, n.attrs['test'], n.attrs['test'].ast)
+
     def is_main_branch(n):
         if n.kind != 'branch' or n.attrs['test'].kind != 'test' or n.attrs['polarity'] is not True:
             return False
-        cs = {x.value for x in ast.walk(n.attrs['test'].ast) if isinstance(x, ast.Constant) and isinstance(x.value, str)}
+        cs = {x.value for p_ in deep(n) for x in ast.walk(p_) if isinstance(x, ast.Constant) and isinstance(x.value, str)}
         return {'__name__', '__main__'} <= cs
     main_branches = [n for n in g.nodes if is_main_branch(n)]
     # (a) some exit without descent exists and is guarded by the main test
@@ -285,7 +331,7 @@ def r5_main_guard(ctx):
         ops = set()
         for gb in dom_if.guards(mb) + [mb]:
             if gb.kind == 'branch' and gb.attrs['test'].kind == 'test' and gb.attrs['polarity'] is True:
-                ops |= {x.attr if isinstance(x, ast.Attribute) else x.id for x in ast.walk(gb.attrs['test'].ast) if isinstance(x, (ast.Attribute, ast.Name))}
+                ops |= {x.attr if isinstance(x, ast.Attribute) else x.id for p_ in deep(gb) for x in ast.walk(p_) if isinstance(x, (ast.Attribute, ast.Name))}
         ok_op = 'Eq' in ops
         rep.ob('C07.R5', ctx.loc(f, mb.attrs['test'].ast), 'main guard is an == comparison', ok_op,
                'the skip is conditional on the operator being ast.Eq' if ok_op else
@@ -330,8 +376,23 @@ def r6_package_walk(ctx):
     pk_tests = [t for t in pk_tests if not any(fr.kind == 'loop' and fr.stmt is not lp.ast for fr in t.frames)]
     need(pk_tests, 'C07.R6: package test (__init__.py existence) not found in the walk loop')
     t = pk_tests[0]
-    fb = [b for b in t.nsucc() if b.kind == 'branch' and b.attrs['polarity'] is False]
-    tb = [b for b in t.nsucc() if b.kind == 'branch' and b.attrs['polarity'] is True]
+    # which branch is "certainly not a package": the one whose facts contain the package flag with polarity False
+    pk_names = set()
+    for nm in ast.walk(t.ast):
+        if isinstance(nm, ast.Name):
+            for d in rd.at(t, nm.id):
+                if isinstance(d.value, ast.AST) and any(isinstance(x, ast.Constant) and x.value == '__init__.py' for x in ast.walk(d.value)):
+                    pk_names.add(nm.id)
+    fb, tb = [], []
+    for b in t.nsucc():
+        if b.kind != 'branch':
+            continue
+        fs_ = graph.facts_of(t.ast, b.attrs['polarity'], b)
+        if any(isinstance(fa.expr, ast.Name) and fa.expr.id in pk_names and fa.polarity is False for fa in fs_):
+            fb.append(b)
+        else:
+            tb.append(b)
+    need(len(fb) == 1 and len(tb) == 1, 'C07.R6: the package test does not split into a "not a package" branch and its complement')
     region = [n for n in graph.reachable(fb, efilter=graph.normal_only, stop=[lp]) if dom.has(n) and any(dom.dominates(b, n) for b in fb)]
     cleared = False
     clear_nodes = []
